@@ -104,6 +104,10 @@ static int run_one(int64_t i, const char *input_name) {
     char *source = malloc((size_t)in_len[i] + 1);
     memcpy(source, in_data[i], in_len[i]);
     source[in_len[i]] = '\0';                       /* as read_file() in src/nanovirt/main.c */
+    {   /* the drivers read the program from a file, and diagnostics re-read that file for context lines */
+        int sfd = open(input_name, O_CREAT | O_TRUNC | O_WRONLY, 0644);
+        if (sfd >= 0) { if (write(sfd, in_data[i], in_len[i]) < 0) { /* best effort */ } close(sfd); }
+    }
     int64_t off = cap_size();
     int v = 'a';
 
